@@ -156,6 +156,12 @@ def r_reaction(idx, rep, rule="R-REACTION"):
         cr = calls(v, "cross")
         if cr and len(cr[0].args) == 2:
             arm, frc = cr[0].args
+            # lever arms / forces bound to temporaries first (`levers_2 = contact_coms - rigid_body2.com`) are read through
+            arm = resolved(acc.node, arm) if isinstance(arm, ast.Name) else arm
+            if isinstance(frc, ast.Name):
+                frc = resolved(acc.node, frc)
+            elif isinstance(frc, ast.UnaryOp) and isinstance(frc.op, ast.USub) and isinstance(frc.operand, ast.Name):
+                frc = ast.UnaryOp(op=ast.USub(), operand=resolved(acc.node, frc.operand))
             arm_ok = isinstance(arm, ast.BinOp) and isinstance(arm.op, ast.Sub) and u(arm.right) == "%s.com" % body and "contact_coms" in u(arm.left)
             neg = isinstance(frc, ast.UnaryOp) and isinstance(frc.op, ast.USub)
             f_ok = ("contact_forces" in u(frc)) and (neg == (sign < 0))
@@ -172,10 +178,14 @@ def r_reaction(idx, rep, rule="R-REACTION"):
             if isinstance(st, ast.Assign) and isinstance(st.value, ast.Call) and (call_name(st.value) or "").split(".")[-1] == callee \
                     and isinstance(st.targets[0], ast.Tuple):
                 return [u(e) for e in st.targets[0].elts], st.value
+            # `return callee(...)`: the result tuple is forwarded unchanged, the order is the callee's
+            if isinstance(st, ast.Return) and isinstance(st.value, ast.Call) and (call_name(st.value) or "").split(".")[-1] == callee:
+                return "forwarded", st.value
         return None, None
     tw_ret = ret_names(tw)
     tg, call = unpack_of(acc, "_transform_wrenches")
-    ok = bool(tw_ret) and tg is not None and all(("12" in a) == ("12" in b) and ("21" in a) == ("21" in b) for a, b in zip(tw_ret[0], tg))
+    forwarded = tg == "forwarded"
+    ok = bool(tw_ret) and tg is not None and (forwarded or all(("12" in a) == ("12" in b) and ("21" in a) == ("21" in b) for a, b in zip(tw_ret[0], tg)))
     rep.check(ok, rule, acc.key + "|unpack order of _transform_wrenches", acc.where,
               "_transform_wrenches returns %s, accumulate_wrenches unpacks into %s" % (tw_ret, tg))
     if call is not None:
@@ -186,7 +196,7 @@ def r_reaction(idx, rep, rule="R-REACTION"):
                                         for a, p, node in zip(an[1:], pn[1:], call.args[1:]) if isinstance(node, ast.Name))
         rep.check(ok, rule, acc.key + "|argument roles of _transform_wrenches", acc.where,
                   "arguments %s do not line up with parameters %s" % (an, pn))
-    acc_ret = ret_names(acc)
+    acc_ret = tw_ret if forwarded else ret_names(acc)
     tg2, _ = unpack_of(cf, "accumulate_wrenches")
     ok = bool(acc_ret) and tg2 is not None and all(("12" in a) == ("12" in b) for a, b in zip(acc_ret[0], tg2))
     rep.check(ok, rule, cf.key + "|unpack order of accumulate_wrenches", cf.where,
@@ -282,10 +292,11 @@ def r_contactforce(idx, rep, rule="R-CONTACTFORCE"):
         return
     loop = loops[0]
     where = "%s:%d" % (f.module.relpath, loop.lineno)
+    from ..core.astutil import assign_pairs
     defs = {}
     for st in iter_stmts(loop.body):
-        if isinstance(st, ast.Assign) and len(st.targets) == 1:
-            defs[u(st.targets[0])] = st.value
+        for t_, v_ in assign_pairs(st):
+            defs[u(t_)] = v_
     # the triangle's vertices: X = polygon[triangle]; corners X[0], X[1], X[2]
     vname = None
     for k, v in defs.items():
@@ -294,7 +305,11 @@ def r_contactforce(idx, rep, rule="R-CONTACTFORCE"):
     if vname is None:
         rep.unknown(rule, f.key + "|triangle fan", f.where, "`vertices = contact_polygon[triangle]` not found: the integration formulas are not decided")
         return
-    corner = lambda e: const(e.slice) if isinstance(e, ast.Subscript) and u(e.value) == vname and isinstance(const(e.slice), int) else None
+    def corner(e, depth=0):
+        """k when e is corner k of the triangle: `vertices[k]`, or a local bound to it (`v0, v1, v2 = vertices[0], vertices[1], vertices[2]`)"""
+        if isinstance(e, ast.Name) and e.id in defs and depth < 3:
+            return corner(defs[e.id], depth + 1)
+        return const(e.slice) if isinstance(e, ast.Subscript) and u(e.value) == vname and isinstance(const(e.slice), int) else None
 
     def addends(e):
         if isinstance(e, ast.BinOp) and isinstance(e.op, ast.Add):
@@ -352,29 +367,95 @@ def r_contactforce(idx, rep, rule="R-CONTACTFORCE"):
 
 def r_polyguard(idx, rep, rule="R-POLYGUARD"):
     rep.rule(rule, "fewer than 3 polygon vertices means no intersection (at all three stages); the contact plane is normalised "
-                   "by the norm of its normal part before the offset is used, with the zero-normal case tested first", floor=5)
+                   "by the norm of its normal part before the offset is used, with the zero-normal case tested first", floor=4)
     TI = HY + "_tetrahedron_intersection"
     ccp = idx.func(TI + "::compute_contact_polygon")
-    n = 0
-    for st in iter_stmts(ccp.node.body):
-        if isinstance(st, ast.If) and ncmp(st.test) is not None:
-            op, a, b = ncmp(st.test)
-            if isinstance(a, ast.Call) and call_name(a) == "len" and op == "<" and const(b) == 3:
-                empty = any(isinstance(s, ast.Return) and "np.empty((0, 3)" in u(resolved(ccp.node, s.value)) for s in st.body)
-                n += 1
-                rep.check(empty, rule, ccp.key + "|%s" % u(st.test), "%s:%d" % (ccp.module.relpath, st.lineno),
-                          "degenerate polygon does not return the empty (0, 3) polygon")
-    rep.check(n >= 2, rule, ccp.key + "|two degenerate-polygon exits", ccp.where,
-              "expected the <3-vertex exit after half-plane intersection and after duplicate removal, found %d" % n)
+    # The polygon is projected to 3D only where BOTH the half-plane intersection and the de-duplicated, ordered polygon are known to have at least 3
+    # vertices — as facts on the guard chain of the projecting statement (enclosing tests and preceding exits), so early returns and a single exit with
+    # a default empty result are the same instance — and what is returned otherwise is the empty (0, 3) polygon.
+    from ..core.astutil import guard_chain as _gc
+    pm_c = parent_map(ccp.node)
+
+    def len_ge3(t, pol):
+        """name N when (t, pol) states len(N) >= 3"""
+        c = ncmp(t)
+        if c is None:
+            return None
+        op, a_, b_ = c                    # a < b  /  a <= b
+        if isinstance(a_, ast.Call) and call_name(a_) == "len" and a_.args and const(b_) == 3 and op == "<" and pol is False:
+            return u(a_.args[0])
+        if isinstance(b_, ast.Call) and call_name(b_) == "len" and b_.args and ((const(a_) == 3 and op == "<=") or (const(a_) == 2 and op == "<")) and pol is True:
+            return u(b_.args[0])
+        return None
+    proj = [c_ for c_ in calls(ccp.node) if (call_name(c_) or "").split(".")[-1] == "project_polygon_to_3d"]
+    if len(proj) != 1:
+        raise AnalysisError("compute_contact_polygon: expected one projection of the 2D polygon to 3D")
+    pst = proj[0]
+    while not isinstance(pst, ast.stmt):
+        pst = pm_c[pst]
+    known = {len_ge3(t_, pol) for t_, pol in _gc(pm_c, pst, ccp.node)} - {None}
+
+    def origin(name):
+        """callees that produce any value the name is bound to in this function"""
+        out = set()
+        for st_ in ast.walk(ccp.node):
+            if isinstance(st_, ast.Assign) and any(u(t_) == name for t_ in st_.targets):
+                out |= {(call_name(c_) or "").split(".")[-1] for c_ in ast.walk(st_.value) if isinstance(c_, ast.Call)}
+        return out
+    uq = [n_ for n_ in known if "filter_unique_points" in origin(n_)]
+    hp = [n_ for n_ in known if "intersect_halfplanes" in origin(n_) and n_ not in uq]
+    rep.check(bool(hp), rule, ccp.key + "|len(half-plane intersection) >= 3 before the polygon is built", "%s:%d" % (ccp.module.relpath, pst.lineno),
+              "the polygon is projected without knowing that the half-plane intersection has at least 3 vertices (known: %s)" % sorted(known))
+    rep.check(bool(uq) and (not proj[0].args or u(proj[0].args[0]) in uq), rule, ccp.key + "|len(unique vertices) >= 3 before the polygon is built",
+              "%s:%d" % (ccp.module.relpath, pst.lineno),
+              "the polygon is projected without knowing that at least 3 DISTINCT vertices remain after duplicate removal (known: %s)" % sorted(known))
+    n_other = 0
+    for r_ in [n_ for n_ in ast.walk(ccp.node) if isinstance(n_, ast.Return) and n_.value is not None]:
+        if r_ is pst or any(x is proj[0] for x in ast.walk(r_)):
+            continue
+        # a return of the variable that may hold the projection: its other definition must be the empty polygon
+        vals = [r_.value] if not isinstance(r_.value, ast.Name) else [st_.value for st_ in ast.walk(ccp.node) if isinstance(st_, ast.Assign) and any(u(t_) == r_.value.id for t_ in st_.targets)]
+        others = [v_ for v_ in vals if not any(x is proj[0] for x in ast.walk(v_))]
+        if not others:
+            continue
+        n_other += 1
+        rep.check(all("np.empty((0, 3)" in u(resolved(ccp.node, v_) if isinstance(v_, ast.Name) else v_) for v_ in others), rule,
+                  ccp.key + "|empty polygon otherwise #%d" % n_other, "%s:%d" % (ccp.module.relpath, r_.lineno), "a degenerate polygon does not return the empty (0, 3) polygon")
+    rep.check(n_other >= 1, rule, ccp.key + "|degenerate results exist", ccp.where, "no path returns the empty polygon")
     itp = idx.func(TI + "::intersect_tetrahedron_pair")
-    ok = False
-    for st in iter_stmts(itp.node.body):
-        if isinstance(st, ast.If) and ncmp(st.test) is not None:
-            op, a, b = ncmp(st.test)
-            if isinstance(a, ast.Call) and call_name(a) == "len" and op == "<" and const(b) == 3:
-                for s in st.body:
-                    if isinstance(s, ast.Return) and isinstance(s.value, ast.Tuple) and const(s.value.elts[0]) is False:
-                        ok = True
+    # every return whose flag can be True while a polygon exists must know len(polygon) >= 3: either the flag IS that comparison, or the return is
+    # reached only past `if len(polygon) < 3: return False, ...`
+    from ..core.astutil import guard_chain
+    pm_i = parent_map(itp.node)
+
+    def is_len3(t, want_ge):
+        c = ncmp(t)
+        if c is None:
+            return False
+        op, a, b = c                      # normalised to a < b / a <= b
+        if isinstance(a, ast.Call) and call_name(a) == "len" and const(b) == 3 and op == "<":
+            return not want_ge            # len < 3
+        if isinstance(b, ast.Call) and call_name(b) == "len" and const(a) == 3 and op == "<=":
+            return want_ge                # 3 <= len
+        if isinstance(b, ast.Call) and call_name(b) == "len" and const(a) == 2 and op == "<":
+            return want_ge                # 2 < len
+        return False
+    ok, seen_poly = True, False
+    for r_ in [n_ for n_ in ast.walk(itp.node) if isinstance(n_, ast.Return) and isinstance(n_.value, ast.Tuple) and n_.value.elts]:
+        flag = r_.value.elts[0]
+        if const(flag) is False:
+            continue
+        atoms = guard_chain(pm_i, r_, itp.node)
+        guarded = any((is_len3(t_, True) and pol is True) or (is_len3(t_, False) and pol is False) for t_, pol in atoms)
+        if isinstance(flag, ast.Compare) and is_len3(flag, True):
+            seen_poly = True
+        elif const(flag) is True and guarded:
+            seen_poly = True
+        elif const(flag) is True and not any("len(" in u(t_) for t_, _ in atoms):
+            continue                      # an early success that does not involve the polygon (identical tetrahedra)
+        else:
+            ok = False
+    ok = ok and seen_poly
     rep.check(ok, rule, itp.key + "|len(contact_polygon) < 3 -> False", itp.where,
               "a polygon with fewer than 3 vertices must be reported as no intersection")
     cp = idx.func(TI + "::contact_plane")
@@ -383,11 +464,27 @@ def r_polyguard(idx, rep, rule="R-POLYGUARD"):
                 and ":3" in u(st.value.args[0])]
     div = [st for st in body if isinstance(st, ast.AugAssign) and isinstance(st.op, ast.Div) and norm_def and u(st.value) == u(norm_def[0].targets[0])
            and isinstance(st.target, ast.Name) and ("%s[:3]" % st.target.id) == u(norm_def[0].value.args[0])]
-    zero = [st for st in body if isinstance(st, ast.If) and norm_def and u(st.test).replace(" ", "") in ("%s==0.0" % u(norm_def[0].targets[0]), "%s==0" % u(norm_def[0].targets[0]))]
     flip = [st for st in body if isinstance(st, ast.AugAssign) and isinstance(st.target, ast.Subscript) and const(st.target.slice) == 3]
-    ok = bool(norm_def and div and zero) and norm_def[0].lineno < zero[0].lineno < div[0].lineno
+    # the division is reached only where the norm is known to be non-zero: `if norm == 0.0: return ...` before it, or the division inside
+    # `if norm != 0.0:` — the guard chain of the dividing statement (enclosing tests and preceding exits) says which
+    ok = bool(norm_def and div)
+    if ok:
+        from ..core.astutil import guard_chain
+        nname = u(norm_def[0].targets[0])
+        atoms = guard_chain(parent_map(cp.node), div[0], cp.node)
+
+        def zero_fact(t, pol):
+            c = t if isinstance(t, ast.Compare) and len(t.ops) == 1 else None
+            if c is None:
+                return False
+            sides = {u(c.left), u(c.comparators[0])}
+            if nname not in sides or not (sides & {"0.0", "0"}):
+                return False
+            return (isinstance(c.ops[0], ast.Eq) and pol is False) or (isinstance(c.ops[0], ast.NotEq) and pol is True) \
+                or (isinstance(c.ops[0], (ast.Gt, ast.Lt)) and pol is True)
+        ok = any(zero_fact(t_, pol) for t_, pol in atoms) and norm_def[0].lineno < div[0].lineno
     rep.check(ok, rule, cp.key + "|normalise after zero test", cp.where,
-              "contact_plane must compute the norm of plane[:3], return the degenerate case when it is 0, then divide the plane by it")
+              "contact_plane must compute the norm of plane[:3] and divide the plane by it only where the norm is known to be non-zero")
     rep.check(bool(flip) and bool(div) and div[0].lineno < flip[0].lineno, rule, cp.key + "|offset used after normalisation", cp.where,
               "the offset component [3] is modified/used before the plane is normalised")
 
@@ -420,6 +517,11 @@ def r_planecross(idx, rep, rule="R-PLANECROSS"):
                    "the function's boolean structure)", floor=2)
     import itertools
     f = idx.func(HY + "_tetrahedron_intersection::check_tetrahedra_intersect_contact_plane")
+    # one-expression helpers (`_on_both_sides_of_plane(distances, tolerance)`) are read as the expression they return
+    import copy as _copy
+    from ..core.inline import expand_helpers as _expand
+    f0_, f = f, _copy.copy(f)
+    f.node = _expand(idx, f0_.module, f0_.node, depth=3)
     ps = f.params()
     t1, t2, nrm, dd, tol = ps[:5]
     loc = {}
